@@ -1028,6 +1028,11 @@ class Translator:
 
 def translate(sigpath, repo):
     sig = json.load(open(sigpath))
+    if sig.get('mode') == 'state':      # receiver-state mode (sigs/metadata.json): a separate module
+        if HERE not in sys.path:
+            sys.path.insert(0, HERE)
+        import statemode
+        return statemode.translate(sig, repo)
     path = os.path.join(repo, sig['source'])
     raw = open(path, 'rb').read()
     out = Translator(sig, raw.decode('utf8')).translate()
